@@ -167,6 +167,13 @@ pub fn c_filter_not_in_bounded<'a>(p: &P<'a>) {
     a.filter_not_in(neg).embedded_output("out0");
 }
 
+pub fn c_chain_bounded_first<'a>(p: &P<'a>) {
+    // bounded top-level prefix chained in front of an unbounded stream: order is prefix, then input
+    let head = p.source_iter(q!(vec![100i64, 200]));
+    head.chain(p.embedded_input::<i64>("in0").map(q!(|x| x + 1)))
+        .embedded_output("out0");
+}
+
 pub fn c_fold_sum<'a>(p: &P<'a>) {
     let s = p.embedded_input::<i64>("in0").fold(q!(|| 0i64), q!(|acc, x| *acc += x));
     obs_final(s, "out0");
